@@ -75,12 +75,26 @@ func newEvalDom(p *Program) *evalDom {
 			if !isNodeType(prm.Type()) {
 				continue
 			}
+			// type tests of the parameter, or of a loop variable that starts as the parameter (a dispatcher that goes
+			// round with a child instead of calling itself)
 			n := 0
-			for _, ref := range *prm.Referrers() {
-				if _, ok := ref.(*ssa.TypeAssert); ok {
-					n++
+			seen := map[ssa.Value]bool{}
+			var count func(v ssa.Value)
+			count = func(v ssa.Value) {
+				if seen[v] || v.Referrers() == nil {
+					return
+				}
+				seen[v] = true
+				for _, ref := range *v.Referrers() {
+					switch x := ref.(type) {
+					case *ssa.TypeAssert:
+						n++
+					case *ssa.Phi:
+						count(x)
+					}
 				}
 			}
+			count(prm)
 			if n > best {
 				best, d.evalFn, d.nodeIdx = n, fn, pi
 			}
@@ -138,10 +152,7 @@ func newEvalDom(p *Program) *evalDom {
 				}
 			}
 		}
-		_ = thin
-		if n > 0 {
-			// loop-free and closure-free: whatever it evaluates, against whatever, shows up as the same events in the
-			// dispatcher's own path
+		if n > 0 && thin {
 			d.wrapper[fn] = true
 		}
 		if os.Getenv("JMESCHECK_DEBUG_WRAP") != "" && n > 0 {
@@ -158,8 +169,8 @@ func newEvalDom(p *Program) *evalDom {
 			switch x := in.(type) {
 			case *ssa.Call:
 				cf := x.Call.StaticCallee()
-				if cf == nil || cf.Pkg != d.pkg || cf == fn {
-					other = true
+				if cf == nil || cf.Pkg != d.pkg || cf == fn || cf.Signature.Results().Len() != 1 || !isBoolType(cf.Signature.Results().At(0).Type()) {
+					other = true // only a predicate, boxed or negated: a function that passes on another helper's value is a helper
 				}
 				calls++
 			case *ssa.MakeInterface, *ssa.ChangeType, *ssa.ChangeInterface, *ssa.Return, *ssa.DebugRef:
@@ -182,6 +193,9 @@ func newEvalDom(p *Program) *evalDom {
 		if t, ok := m.(*ssa.Type); ok {
 			if nt, ok := t.Type().(*types.Named); ok {
 				if st, ok := nt.Underlying().(*types.Struct); ok {
+					if types.Identical(types.NewPointer(nt), d.scopeT) || types.Identical(nt, d.scopeT) {
+						continue // the scope type itself (it links to its parent scope)
+					}
 					for i := 0; i < st.NumFields(); i++ {
 						if types.Identical(st.Field(i).Type(), d.scopeT) {
 							ctx[nt] = true
@@ -212,6 +226,11 @@ func newEvalDom(p *Program) *evalDom {
 		}
 		if hit {
 			d.wrapper[fn] = true
+		}
+	}
+	if os.Getenv("JMESCHECK_DEBUG_WRAP") != "" {
+		for f := range d.wrapper {
+			fmt.Fprintf(os.Stderr, "wrapper: %s\n", f.Name())
 		}
 	}
 	return d
@@ -347,7 +366,53 @@ func (d *evalDom) run(form types.Type) ([]Outcome, *Engine) {
 			args[i] = avPtr{d.evalObj, ""}
 		}
 	}
-	return e.Run(d.evalFn, args, st), e
+	// a loop of the dispatcher that goes round with another node (and current value, and scope) in place of its
+	// parameters evaluates that node: the second entry of such a loop is read as the recursive call it replaces
+	nodePrm := d.evalFn.Params[d.nodeIdx]
+	e.TailHeaders = map[*ssa.BasicBlock]bool{}
+	for h := range loopsOf(d.evalFn) {
+		for _, in := range h.Instrs {
+			if ph, ok := in.(*ssa.Phi); ok {
+				for _, ed := range ph.Edges {
+					if ed == ssa.Value(nodePrm) {
+						e.TailHeaders[h] = true
+					}
+				}
+			}
+		}
+	}
+	outs := e.Run(d.evalFn, args, st)
+	if len(e.TailHeaders) == 0 {
+		return outs, e
+	}
+	var ret *ssa.Return
+	for _, r := range returnsOf(d.evalFn) {
+		ret = r
+		break
+	}
+	var final []Outcome
+	for _, o := range outs {
+		if !o.Cut || !e.TailHeaders[o.CutBlock] {
+			final = append(final, o)
+			continue
+		}
+		vals := map[int]AV{d.nodeIdx: args[d.nodeIdx], d.curIdx: args[d.curIdx], d.scopeIdx: args[d.scopeIdx]}
+		for ph, v := range o.CutPhis {
+			for _, ed := range ph.Edges {
+				for idx := range vals {
+					if ed == ssa.Value(d.evalFn.Params[idx]) {
+						vals[idx] = v
+					}
+				}
+			}
+		}
+		val := avSym{id: e.fresh(), tag: "val"}
+		o.St.event(Event{Kind: "eval", Fn: d.evalFn, Args: []AV{vals[d.nodeIdx], vals[d.curIdx], vals[d.scopeIdx]}, Res: []AV{val}, Pos: o.CutBlock.Instrs[0].Pos()})
+		bad := o.St.clone()
+		err := avSym{id: e.fresh(), tag: "eval-err", nonNil: true}
+		final = append(final, Outcome{St: o.St, Res: []AV{val, avNil{}}, Ret: ret}, Outcome{St: bad, Res: []AV{avNil{}, err}, Ret: ret})
+	}
+	return final, e
 }
 
 // fieldSym synthesises the symbolic content of a node field and remembers it.
